@@ -61,11 +61,12 @@ def confirm(mid):
     rc, out = sh(demo, cwd=wt, timeout=1200)
     log["with_change"] = {"rc": rc, "tail": out[-500:]}
     # without the change
-    sh("git stash", cwd=wt)
+    # (never `git stash`: the stash is shared by all worktrees of /repo)
+    sh(f"git apply -R out/patch.diff", cwd=wt)
     sh("ninja -C _b 2>&1 | tail -1", cwd=wt)
     rc2, out2 = sh(demo, cwd=wt, timeout=1200)
     log["without_change"] = {"rc": rc2, "tail": out2[-500:]}
-    sh("git stash pop", cwd=wt)
+    sh(f"git apply out/patch.diff", cwd=wt)
     sh("rm -rf _b", cwd=wt)
     log["confirmed"] = bool(log["tests_ok"] and (rc != 0 or "FAIL" in out) and rc2 == 0 and "FAIL" not in out2.replace("Fail:", ""))
     json.dump(log, open(f"{wt}/out/confirm.json", "w"), indent=1)
